@@ -1,9 +1,12 @@
 #!/bin/bash
 # tools/seedfinal.sh — re-runs every collected seeded change against the check that is recorded as catching it (the first one
 # listed in seeded/<id>/meta.json; the own property's check otherwise), on the current /repo and the current checks, and appends
-# the verdicts to /tmp/seed-out/matrix.jsonl. Prints the ones that are not caught.
+# the verdicts to /tmp/seed-out/matrix.jsonl. Prints the ones that are not caught. With two arguments <i> <n> only every n-th change
+# starting at the i-th is run (n of these can run side by side).
 cd "$(dirname "$0")/.."
+I="${1:-0}"; N="${2:-1}"; k=0
 for m in seeded/*/meta.json; do
+  k=$((k+1)); [ $((k % N)) -eq "$I" ] || continue
   id=$(python3 -c "import json;print(json.load(open('$m'))['id'])")
   prop=${id%-*}; n=${id#*-}
   ck=$(python3 -c "
